@@ -738,3 +738,23 @@ Proof.
   replace (/ c * (dj + 2 * c * (ln pik + - ln pij))) with (/ c * dj + 2 * (ln pik - ln pij)) in H2 by (field; lra).
   lra.
 Qed.
+
+(* shared diagonal covariance: classes are ranked by the weight-adjusted Mahalanobis distance *)
+Theorem gmm_diag_map (D : nat) (muj muk y cov : nat -> R) (pij pik : R) :
+  (forall i, (i < D)%nat -> 0 < cov i) -> 0 < pij -> 0 < pik ->
+  rsum D (fun i => / cov i * ((y i - muj i) * (y i - muj i))) + 2 * ln (pik / pij)
+    < rsum D (fun i => / cov i * ((y i - muk i) * (y i - muk i))) ->
+  ln pik + gauss_diag_logpdf RO PI D muk y cov < ln pij + gauss_diag_logpdf RO PI D muj y cov.
+Proof.
+  intros Hc Hj Hk H. unfold gauss_diag_logpdf. rewrite !gauss_core_R.
+  assert (E : forall mu, rsum D (fun k => pc_diag RO cov k * gdiff RO mu y k * (pc_diag RO cov k * gdiff RO mu y k))
+                         = rsum D (fun i => / cov i * ((y i - mu i) * (y i - mu i)))).
+  { intros mu. apply rsum_ext; intros i Hi.
+    unfold gdiff, osub. cbn [oadd oopp omul RO].
+    transitivity ((pc_diag RO cov i * pc_diag RO cov i) * ((y i - mu i) * (y i - mu i))). ring.
+    replace (pc_diag RO cov i * pc_diag RO cov i) with (/ cov i). reflexivity.
+    unfold pc_diag. cbn [oinv osqrt RO]. rewrite <- Rinv_mult. rewrite sqrt_sqrt; auto. left; auto. }
+  cbn [omul RO]. rewrite !E.
+  unfold Rdiv in H. rewrite ln_mult in H by (auto; apply Rinv_0_lt_compat; auto). rewrite ln_Rinv in H by auto.
+  lra.
+Qed.
